@@ -4,4 +4,5 @@ PROPERTIES = {
     "C16": ["contracts.c16"],
     "C09": ["contracts.c09"],
     "C17": ["contracts.c17"],
+    "C12": ["contracts.c12"],
 }
